@@ -40,6 +40,10 @@ type FS struct {
 	// there is nothing to truncate, fsync says EINVAL, and a rename onto the
 	// name replaces the pipe by a regular file.
 	Fifos map[string]bool
+	// SizeUnknown marks inputs whose size stat cannot tell: a named pipe a
+	// writer feeds, a /proc-like file. Stat reports a pipe of size 0; reading
+	// delivers the content all the same.
+	SizeUnknown map[string]bool
 }
 
 // Resolve follows symbolic links (a bounded number of them).
@@ -55,7 +59,7 @@ func (f *FS) Resolve(name string) string {
 }
 
 func NewFS() *FS {
-	return &FS{Files: map[string][]byte{}, Dirs: map[string]bool{".": true}, ReadOnly: map[string]bool{}, Unreadable: map[string]bool{}, Links: map[string]string{}, Fifos: map[string]bool{}}
+	return &FS{Files: map[string][]byte{}, Dirs: map[string]bool{".": true}, ReadOnly: map[string]bool{}, Unreadable: map[string]bool{}, Links: map[string]string{}, Fifos: map[string]bool{}, SizeUnknown: map[string]bool{}}
 }
 
 // RestoreFrom makes f hold what snapshot holds (the snapshot is consumed).
@@ -80,6 +84,9 @@ func (f *FS) Clone() *FS {
 	}
 	for k, v := range f.Fifos {
 		g.Fifos[k] = v
+	}
+	for k, v := range f.SizeUnknown {
+		g.SizeUnknown[k] = v
 	}
 	return g
 }
@@ -767,7 +774,7 @@ func Stat(name string) (Info, error) {
 	if !ok {
 		return Info{}, pathErr("stat", name, syscall.ENOENT)
 	}
-	if p.FS.Fifos[name] {
+	if p.FS.Fifos[name] || p.FS.SizeUnknown[name] {
 		return Info{Name: name, Pipe: true, Clock: p.Clock}, nil
 	}
 	return Info{Name: name, Size: int64(len(d)), Clock: p.Clock}, nil
@@ -788,7 +795,7 @@ func (h *Handle) Stat() (Info, error) {
 		}
 		return Info{Name: h.Name, Pipe: true, Clock: p.Clock}, nil
 	}
-	if p.FS.Fifos[h.Name] {
+	if p.FS.Fifos[h.Name] || p.FS.SizeUnknown[h.Name] {
 		return Info{Name: h.Name, Pipe: true, Clock: p.Clock}, nil
 	}
 	return Info{Name: h.Name, Size: int64(len(p.FS.Files[h.Name])), Clock: p.Clock}, nil
@@ -834,6 +841,7 @@ func Rename(from, to string) error {
 	}
 	delete(p.FS.Links, to) // rename replaces a symbolic link itself, it does not follow it
 	delete(p.FS.Fifos, to) // and a named pipe: what is there afterwards is a regular file
+	delete(p.FS.SizeUnknown, to)
 	p.FS.Files[to] = d
 	delete(p.FS.Files, from)
 	return nil
